@@ -599,6 +599,12 @@ func (rn *Runner) timed(f func()) string {
 		select {
 		case <-done:
 		case <-time.After(Watchdog):
+			if rn.stall {
+				// the call does not even return when its transport is gone: it is blocked for good (the
+				// goroutine is abandoned). For a scenario with a stall that is an observation, not a failure
+				// of the machinery.
+				return "never"
+			}
 			rn.Infra = errors.New("call did not return after the transport was cut")
 		}
 		if !rn.stall {
